@@ -193,18 +193,19 @@ def src_arg(a) -> str:
     raise ValueError(a)
 
 
-def kernel_source(kern) -> str:
+def kernel_source(kern, opts="") -> str:
     ps = []
     for name, kind, ann in kern["params"]:
         ps.append(f"{name}: {ann}" if ann else name)
-    lines = ["@tweezer", f"def {kern['name']}({', '.join(ps)}):"]
+    lines = ["@tweezer" + opts, f"def {kern['name']}({', '.join(ps)}):"]
     body = src_body(kern["body"], 1)
     lines += body or ["    pass"]
     return "\n".join(lines) + "\n\n"
 
 
-def program_source(kernels) -> str:
-    return PRELUDE + "".join(kernel_source(k) for k in kernels)
+def program_source(kernels, opts="") -> str:
+    """opts: decorator options of every kernel, e.g. "(fold=False)" """
+    return PRELUDE + "".join(kernel_source(k, opts) for k in kernels)
 
 
 # --------------------------------------------------------------------------- reference flattening
@@ -637,8 +638,8 @@ class TraceCase:
                 "args_wire": sx(list(self.wire_args)), "ops": self.req}
 
 
-def compile_program(ctx, kernels):
-    src = program_source(kernels)
+def compile_program(ctx, kernels, opts=""):
+    src = program_source(kernels, opts)
     try:
         mod = load_source(src, "k")
     except Exception as e:  # noqa: BLE001
@@ -651,11 +652,11 @@ def compile_program(ctx, kernels):
     return mod, src
 
 
-def trace_program(ctx, spec, traps, kernels, arg_sets, tracer=None):
+def trace_program(ctx, spec, traps, kernels, arg_sets, tracer=None, opts=""):
     """Compile `kernels` with the real decorator and trace `main` on each argument tuple.
     `tracer`: optional callable (mt, args) -> path, default a fresh TraceInterpreter per call."""
     from bloqade.shuttle.codegen import TraceInterpreter
-    mod, src = compile_program(ctx, kernels)
+    mod, src = compile_program(ctx, kernels, opts)
     if mod is None:
         return []
     kmap = {k["name"]: k for k in kernels}
@@ -701,7 +702,8 @@ def trace_program(ctx, spec, traps, kernels, arg_sets, tracer=None):
 _SHARED = {}
 
 
-def random_traces(ctx, spec, n_prog, tracer=None):
+def random_traces(ctx, spec, n_prog, tracer=None, unfolded_share=0.0):
+    """unfolded_share: fraction of the programs that are additionally compiled with @tweezer(fold=False)"""
     traps, zones = spec_tables(spec)
     g = Gen(ctx.rng, zones)
     out = []
@@ -709,6 +711,9 @@ def random_traces(ctx, spec, n_prog, tracer=None):
         kernels, shape = g.program()
         arg_sets = [g.args_for(kernels[-1], shape) for _ in range(ctx.rng.randrange(2, 5))]
         out += trace_program(ctx, spec, traps, kernels, arg_sets, tracer)
+        if ctx.rng.random() < unfolded_share:
+            ctx.count("programs_also_compiled_with_fold_False")
+            out += trace_program(ctx, spec, traps, kernels, arg_sets[:2], tracer, opts="(fold=False)")
     return out
 
 
